@@ -1,0 +1,37 @@
+//go:build verif
+
+package fastq
+
+// Contracts for the deductive verifier in /verif (govc). Only compiled with -tags verif.
+
+//@ spec wfReader(r *Reader) bool = r != nil && r.r != nil && r.t != nil && -1 <= r.enc && r.enc <= 5
+
+//@ func maybeID1
+//@   property C03
+//@   pure
+//@   ensures result == (len(l) > 0 && l[0] == 64)
+//@ func maybeID2
+//@   property C03
+//@   pure
+//@   ensures result == (len(l) > 0 && l[0] == 43)
+
+//@ func (*Reader).readHeader
+//@   property C03
+//@   requires wfReader(r) && len(line) > 0 && line[0] == 64
+//@   ensures  result0 != nil
+//@   assigns fresh
+
+//@ func (*Reader).Read
+//@   property C03
+//@   requires wfReader(r)
+//@   ensures [value-or-error] result0 != nil || result1 != nil
+//@   loop 1 invariant wfReader(r) && (fresh(line) || arr(line) == 0) && 0 <= state && state <= 3
+//@   loop 1 invariant state != 0 ==> t != nil && len(label) > 0
+//@   loop 1 invariant fresh(seqBuff) || arr(seqBuff) == 0
+//@   loop 1 writes fresh
+//@   loop 2 invariant 0 <= idx && idx <= len(line) && 0 <= i && i <= idx && len(seqBuff) == len(line) && fresh(seqBuff)
+//@   loop 2 invariant wfReader(r) && (fresh(line) || arr(line) == 0) && t != nil
+//@   loop 2 writes fresh
+//@   loop 3 invariant 0 <= idx && idx <= len(line) && len(line) == len(seqBuff) && wfReader(r) && t != nil
+//@   loop 3 invariant fresh(seqBuff) || arr(seqBuff) == 0
+//@   loop 3 writes fresh
